@@ -196,7 +196,9 @@ Reserve_Post(n, ru) ==
     ELSE LET T1 == IF oP THEN HB!InsGrowNR(Main, cN, ru) ELSE Main
              P1 == NoOldRec(WithMain(St, T1, All))           \* carry_all()
          IN IF p = "overflow" THEN P1 ELSE Grown(P1, n)
-Reserve_En(n, ru) == Ok /\ ru <= (IF oP /\ ReservePath(n) = "grow" THEN Min(cN, HB!Lost(Main)) ELSE 0)
+\* (carry_all() runs before the new size is found to overflow, so relocations may reuse tombstones on that path too)
+Reserve_En(n, ru) == Ok /\ ru <= (IF oP /\ ReservePath(n) \in {"grow", "overflow"} /\ oI + n <= MaxUsize
+                                  THEN Min(cN, HB!Lost(Main)) ELSE 0)
 
 \* reserve's carry_all() interrupted by a Hash panic: `done` moved (growing inserts), `victim` lost,
 \* the rest stays in the old table, no new table is installed
